@@ -17,10 +17,37 @@ pub struct Case {
     pub dodge: u8,
     #[serde(default)]
     pub excluded: u32,
+    /// DOUBLE values and literals are multiples of 0.5 in [-64, 64] (sums and products exact in f32)
+    #[serde(default)]
+    pub exact: bool,
 }
 
 /// the trigger feature of a difference, in priority order (one signature per recorded root cause)
-fn feature(t: &ATable, q: &AQuery, m: &ModelResult) -> &'static str {
+fn feature(t: &ATable, q: &AQuery, m: &ModelResult, exact: bool) -> &'static str {
+    // the two recorded float defects explain a difference wherever inexact DOUBLE values are
+    // involved, so they come first there; with exact values only AVG (a division) can still differ
+    if !exact && float_feature(t, q) != "plain" {
+        return float_feature(t, q);
+    }
+    if exact {
+        return if has_double_avg(t, q) {
+            "float_f32_precision"
+        } else if q.having.is_some() {
+            "having"
+        } else if q.limit.is_some() || q.offset.is_some() {
+            "limit_offset"
+        } else if m.filtered == 0 {
+            "empty_input"
+        } else if has_string_minmax(t, q) {
+            "string_minmax"
+        } else if any_null_in_cols(t, &agg_cols(q)) {
+            "null_in_aggregated_column"
+        } else if any_null_in_cols(t, &(0..t.cols.len()).collect::<Vec<_>>()) {
+            "null_in_other_column"
+        } else {
+            "plain"
+        };
+    }
     if q.having.is_some() {
         "having"
     } else if q.limit.is_some() || q.offset.is_some() {
@@ -36,6 +63,16 @@ fn feature(t: &ATable, q: &AQuery, m: &ModelResult) -> &'static str {
     } else {
         float_feature(t, q)
     }
+}
+
+/// AVG over an expression that reads a DOUBLE column
+fn has_double_avg(t: &ATable, q: &AQuery) -> bool {
+    q.aggs.iter().chain(q.having.iter().map(|h| &h.0)).any(|a| {
+        a.f == vcore::sql::ir::AggFn::Avg && {
+            let one = AQuery { aggs: vec![a.clone()], having: None, ..q.clone() };
+            is_double(t, &agg_cols(&one))
+        }
+    })
 }
 
 /// DOUBLE-related triggers shared with C07: the scan-level filter compares with an epsilon, the
@@ -57,9 +94,9 @@ impl Check for C03 {
     }
     fn rule(&self) -> String {
         "one table of 2-5 INTEGER/DOUBLE/VARCHAR columns, 0-40 rows (NULL densities 0/.2/.6/1; thorough also 1000-3000 rows to cross SIMD lane counts); queries the columnar gate accepts: \
-         select list of COUNT(*)/COUNT(c)/SUM/AVG/MIN/MAX over a column or a+b / a*k, optional WHERE of comparisons/BETWEEN joined by AND, optional HAVING, ORDER BY 1, LIMIT/OFFSET. \
+         select list of COUNT(*)/COUNT(c)/SUM/AVG/MIN/MAX over a column or a+b / a*k, optional WHERE of comparisons/BETWEEN joined by AND; one case in six adds HAVING or ORDER BY 1 / LIMIT / OFFSET, which the gate has to hand to the row path. \
          Oracle: the same statement with the gate forced off through the verif hook (row path), a semantically equal rewrite the gate rejects (derived table / OR (1=0)), and direct assertions \
-         (COUNT never NULL). Non-trivial = the hook counter shows the columnar path produced the result AND (some NULL in the table, or empty/filtered-out input, or HAVING/LIMIT/OFFSET). \
+         (COUNT never NULL). Non-trivial = the hook counter shows the columnar path produced the result AND (some NULL in the table, or empty/filtered-out input). \
          Distinct = hash of the case."
             .into()
     }
@@ -112,9 +149,13 @@ impl Check for C03 {
                 }
             }
         }
+        // HAVING / LIMIT / OFFSET are handed to the row path by the gate (since a51c6307): keep a
+        // share of them to see that they stay there, most of the budget goes through the gate
+        c.allow_having &= t.chance(1, 3);
+        c.allow_limit &= t.chance(1, 3);
         let table = gen_table(t, &c);
         let query = gen_query(t, &table, &c);
-        Case { table, query, dodge: t.below(2) as u8, excluded }
+        Case { table, query, dodge: t.below(2) as u8, excluded, exact: c.exact_floats }
     }
     fn render(&self, c: &Case) -> String {
         let mut s: Vec<String> = c.table.setup_sql().iter().map(|x| vcore::runner::truncate(x, 1500)).collect();
@@ -131,7 +172,7 @@ impl Check for C03 {
         let sql = q.render(t, Dodge::None);
         let m = model(t, q);
         obs.excluded = case.excluded as u64;
-        let feat = feature(t, q, &m);
+        let feat = feature(t, q, &m, case.exact);
         obs.class(&format!("feature:{}", feat));
         // columnar on
         vibesql_executor::verif_hooks::set_columnar_off(false);
@@ -156,7 +197,7 @@ impl Check for C03 {
             obs.class("rewrite_still_columnar");
         }
         let has_null = t.rows.iter().flatten().any(|v| *v == vcore::val::V::Null);
-        obs.nontrivial = columnar && (has_null || m.filtered == 0 || q.having.is_some() || q.limit.is_some() || q.offset.is_some());
+        obs.nontrivial = columnar && (has_null || m.filtered == 0);
         let show = |r: &Result<Vec<vcore::val::CRow>, engine::ExecErr>| match r {
             Ok(rows) => show_rows(rows, 20),
             Err(e) => format!("  ERROR {}\n", e.text()),
@@ -174,7 +215,7 @@ impl Check for C03 {
         }
         if !dodge_columnar && !same(&off, &dg) {
             return Verdict::fail(
-                format!("c03.row_path_rewrite.{}", float_feature(t, q)),
+                format!("c03.row_path_rewrite.{}", if !case.exact { float_feature(t, q) } else if has_double_avg(t, q) { "float_f32_precision" } else { "plain" }),
                 format!("row path: {}\n{}rewrite: {}\n{}", sql, show(&off), dsql, show(&dg)),
             );
         }
